@@ -34,7 +34,7 @@ class Family:
     timeout = 20.0          # seconds per case before it is recorded as a hang
     shard = 400             # cases per cases_*.v
     coq_timeout = 900
-    workers = 12
+    workers = int(os.environ.get("VERIF_WORKERS", "6"))
 
     def generate(self, rng, tier):
         return []
@@ -167,7 +167,7 @@ def run_coq_shards(family, terms, workdir, tag):
                                    timeout=family.coq_timeout)
         return k, rc, out
 
-    with ThreadPoolExecutor(max_workers=8) as ex:
+    with ThreadPoolExecutor(max_workers=int(os.environ.get("VERIF_COQ_JOBS", "6"))) as ex:
         for k, rc, out in ex.map(one, range(len(texts))):
             flat = " ".join(out.split())
             m = re.search(r"= \[(.*?)\]\s*: list nat", flat)
